@@ -35,10 +35,15 @@ def Builder.init {α : Type} (initCap : Nat) (sched : List Bool) : Builder α ×
     if ok then ({ elems := [], cap := initCap, store := .heap }, sched')
     else ({ elems := [], cap := 8, store := .stack }, sched')
 
-/-- `edn_collection_builder_add`: `none` = returned false (nothing changed) -/
-def Builder.add {α : Type} (b : Builder α) (x : α) (sched : List Bool) : Option (Builder α) × List Bool :=
+/-- the growth rule of the pinned source: half as much again (at least eight more) -/
+def growHalf (cap : Nat) : Nat := if cap + cap / 2 ≤ cap then cap + 8 else cap + cap / 2
+
+/-- `edn_collection_builder_add`: `none` = returned false (nothing changed).  `grow` is the
+    growth rule (new capacity from the old one); the theorems hold for every rule, the driver
+    uses the one observed on the current source (`Tables.builderCaps`) -/
+def Builder.add {α : Type} (grow : Nat → Nat) (b : Builder α) (x : α) (sched : List Bool) : Option (Builder α) × List Bool :=
   if b.elems.length ≥ b.cap then
-    let newCap := if b.cap + b.cap / 2 ≤ b.cap then b.cap + 8 else b.cap + b.cap / 2
+    let newCap := grow b.cap
     let (ok, sched') := nextAlloc sched
     if ok then (some { elems := b.elems ++ [x], cap := newCap, store := .heap }, sched')
     else (none, sched')
@@ -63,18 +68,18 @@ inductive BuildOutcome (α : Type)
   | finished (count : Nat) (arr : Option (Store × List α))
 deriving Repr
 
-def Builder.addAll {α : Type} : Builder α → List α → Nat → List Bool → Sum Nat (Builder α) × List Bool
+def Builder.addAll {α : Type} (grow : Nat → Nat) : Builder α → List α → Nat → List Bool → Sum Nat (Builder α) × List Bool
   | b, [], _, sched => (.inr b, sched)
   | b, x :: xs, i, sched =>
-    match b.add x sched with
+    match b.add grow x sched with
     | (none, sched') => (.inl i, sched')
-    | (some b', sched') => Builder.addAll b' xs (i + 1) sched'
+    | (some b', sched') => Builder.addAll grow b' xs (i + 1) sched'
 
 /-- the life of a builder inside `edn_read_list` / `_vector` / `_set` / `_map`: init, one add
     per element read, finish -/
-def Builder.run {α : Type} (initCap : Nat) (xs : List α) (sched : List Bool) : BuildOutcome α :=
+def Builder.run {α : Type} (grow : Nat → Nat) (initCap : Nat) (xs : List α) (sched : List Bool) : BuildOutcome α :=
   let (b, s1) := Builder.init (α := α) initCap sched
-  match Builder.addAll b xs 0 s1 with
+  match Builder.addAll grow b xs 0 s1 with
   | (.inl i, _) => .addFailed i
   | (.inr b', s2) =>
     let (n, arr, _) := b'.finish s2
